@@ -380,6 +380,8 @@ func runC01(toks []string) Result {
 				oracle = "fail:re-serialization differs from input bytes"
 			case incDiffers:
 				oracle = "fail:the value built step by step (serialized after the steps) serializes differently in the end"
+			case arenaDiffers(t, b):
+				oracle = "fail:the value built over windows of one caller-owned buffer serializes differently, or serializing it wrote to that buffer"
 			default:
 				oracle = "ok"
 			}
